@@ -73,7 +73,11 @@ MANIFEST = {
 
 @st.composite
 def _profile(draw, n):
-  kind = draw(st.sampled_from(['random', 'random', 'linear', 'constant']))    # simplest example = varying profile
+  kind = draw(st.sampled_from(['random', 'random', 'linear', 'constant', 'near_constant']))    # simplest example = varying profile
+  if kind == 'near_constant' and n > 1:
+    # almost isothermal: shortcuts for "constant" reference profiles must be exact comparisons, not tolerances
+    base, spread = float(draw(st.integers(200, 300))), draw(st.sampled_from([1e-6, 1e-4, 2e-3]))
+    return [float(base + spread * k / (n - 1)) for k in range(n)]
   if kind == 'constant' or n == 1:
     return [float(draw(st.integers(150, 350)))] * n
   if kind == 'linear':
@@ -123,6 +127,8 @@ def _case(draw, tier, cls=None):
       'cloud_amp': draw(st.sampled_from([0.0, 1.0, 3.0])) if cls == 'cloud' else 0.0,
       'consts': {k: draw(st.sampled_from([1.0, 1.0, 0.5, 2.0, 3.0])) for k in ('R', 'kappa', 'g', 'Rv', 'cpv', 'omega')},
       'matmul': draw(st.sampled_from([None, None, 'dense', 'sparse'])),
+      # whole-Kelvin profiles may be handed over as an integer array (admissible: the code converts where needed)
+      'tref_int_dtype': draw(st.sampled_from([False, False, True])),
   }
   fields = list(MAG) + cfg['tracers']
   n_inputs = draw(st.integers(2, 8 if big else 5))
@@ -253,8 +259,12 @@ def run_tref(case):
   if cfg.get('matmul'):
     kw['vertical_matmul_method'] = cfg['matmul']
   eq_cls = _equation_class(cls)
-  eq1 = eq_cls(t1, oro, coords, specs, **kw)
-  eq2 = eq_cls(t2, oro, coords, specs, **kw)
+  def as_given(t):
+    if cfg.get('tref_int_dtype') and np.all(t == np.round(t)):
+      return t.astype(np.int64)
+    return t
+  eq1 = eq_cls(as_given(t1), oro, coords, specs, **kw)
+  eq2 = eq_cls(as_given(t2), oro, coords, specs, **kw)
   # one compilation per equation object, re-used by every state of the case
   f1 = jax.jit(lambda s: (eq1.explicit_terms(s), eq1.implicit_terms(s)))
   f2 = jax.jit(lambda s: (eq2.explicit_terms(s), eq2.implicit_terms(s)))
@@ -262,7 +272,9 @@ def run_tref(case):
   n_diff = int(np.sum(np.abs(t1 - t2) > 1.0))
   labels = [f'class={cls}', f'alias_rule={cfg.get("alias_rule")}'] + gens.grid_labels(cfg['grid']) \
       + gens.sigma_labels(cfg['boundaries'])
-  kinds = sorted('constant' if np.ptp(t) == 0 else 'varying' for t in (t1, t2))
+  kinds = sorted('constant' if np.ptp(t) == 0 else ('near_constant' if np.ptp(t) < 0.01 else 'varying') for t in (t1, t2))
+  if cfg.get('tref_int_dtype') and (np.all(t1 == np.round(t1)) or np.all(t2 == np.round(t2))):
+    labels.append('tref_dtype=int64')
   labels += [f'profiles={kinds[0]}+{kinds[1]}', 'orography=yes' if oc['amp'] else 'orography=no',
              f'extra_tracers={len([t for t in cfg["tracers"] if t in EXTRA_TRACERS])}',
              f'matmul={cfg.get("matmul")}']
